@@ -30,6 +30,22 @@ ASSUME IOEnv.OUT_FILE = "" \/
                                       sigs1 |-> SetToSeq(Sigs("line")), sigs2 |-> SetToSeq(Sigs("tri")),
                                       sigs3 |-> SetToSeq(Sigs("tet"))])
 
+\* reference locations of a signature-only element, as integers over 12: vertices, barycentres of the local edges,
+\* of the local facets and of the cell (the numbering code itself never looks at them)
+Bary(kind, loc) == LET vs == VSet(loc) IN
+  [cc \in 1..Dim(kind) |-> (12 * SumOver([v \in vs |-> RefP(kind)[v][cc]], vs)) \div Cardinality(vs)]
+ModelRef(kind, s) ==
+  FlattenSeq([j \in 1..NNodes(kind) |-> [r \in 1..s.n |-> Bary(kind, <<j>>)]])
+  \o (IF Dim(kind) = 3 THEN FlattenSeq([g \in DOMAIN CodeLE(kind) |-> [r \in 1..s.e |-> Bary(kind, CodeLE(kind)[g])]])
+      ELSE <<>>)
+  \o (IF Dim(kind) >= 2 THEN FlattenSeq([g \in DOMAIN CodeLF(kind) |-> [r \in 1..s.f |-> Bary(kind, CodeLF(kind)[g])]])
+      ELSE <<>>)
+  \o [r \in 1..s.i |-> Bary(kind, [j \in 1..NNodes(kind) |-> j])]
+WithLocs(d, mesh) ==
+  LET pre == [d EXCEPT !.loc = [mode |-> "exact", L |-> 12, sc |-> 1, ref |-> ModelRef(d.kind, d.sig), p |-> mesh.p,
+                                glob |-> <<>>]]
+  IN [pre EXCEPT !.loc.glob = DofLocsImpl(pre)]
+
 VARIABLES m, c, sig, failed
 vars == <<m, c, sig, failed>>
 
@@ -42,8 +58,8 @@ Connect == /\ c = <<>>
 Number == /\ c # <<>> /\ sig = <<>>
           /\ \E s \in Sigs(m.kind) :
                 /\ sig' = s
-                /\ failed' = Failed(NumberClauses(
-                      NumberDofsImpl(m.kind, m.nv, Len(c.edges), Len(c.facets), m.t, c.t2e, c.t2f, s)))
+                /\ failed' = Failed(NumberClauses(WithLocs(
+                      NumberDofsImpl(m.kind, m.nv, Len(c.edges), Len(c.facets), m.t, c.t2e, c.t2f, s), m)))
           /\ UNCHANGED <<m, c>>
 Next == Connect \/ Number
 Spec == Init /\ [][Next]_vars
